@@ -9,3 +9,20 @@ Definition mon_C09 (c : kcase) : bool :=
   let '(KC _ _ o unchanged same) := c in obs_wellformed o && unchanged && same.
 
 Definition check_C09 (c : kcase) : nat := code (agree_compute c) (mon_C09 c).
+
+(* ---- converter probe: status.GetObjectWithConditions (the real
+   runtime.DefaultUnstructuredConverter) against Base.Json's model of its
+   acceptance set and result.  out = None: it returned an error. *)
+Inductive pcase := PC (input : jv) (out : option (list (string * string * string * string))) (panicked : bool).
+
+Definition quad_of (c : bcond) : string * string * string * string :=
+  (c_type c, c_status c, c_reason c, c_message c).
+Definition quad_eqb (a b : string * string * string * string) : bool :=
+  let '(a1, a2, a3, a4) := a in
+  let '(b1, b2, b3, b4) := b in
+  String.eqb a1 b1 && String.eqb a2 b2 && String.eqb a3 b3 && String.eqb a4 b4.
+
+Definition check_probe (c : pcase) : nat :=
+  let '(PC input out panicked) := c in
+  code (option_eqb (list_eqb quad_eqb) (option_map (map quad_of) (get_object_with_conditions input)) out)
+       (negb panicked).
